@@ -102,6 +102,11 @@ pub mod ledger {
     unsafe impl GlobalAlloc for Counting {
         unsafe fn alloc(&self, l: Layout) -> *mut u8 {
             let p = System.alloc(l);
+            if !p.is_null() {
+                // poison fresh memory: content the library forgets to write is deterministic
+                // and distinguishable (markers have the high bit set, texts are letters)
+                std::ptr::write_bytes(p, 0x11, l.size());
+            }
             let _ = TLIVE.try_with(|c| c.set(c.get() + 1));
             log(p as usize, l, true);
             p
